@@ -892,6 +892,36 @@ def check_sparse(ctx: Ctx, case, lines_out=None):
     return ok
 
 
+def check_sparse_malformed(ctx: Ctx, case) -> bool:
+    """operands that do not fit together: different inner block sizes (product still defined) or different inner
+    dimensions (product undefined).  The call must raise, or — in the first case — return the dense product."""
+    g = gen(case["seed"])
+    dt = tdt(case["dtype"])
+    dm, dp = case["dm"], case["dp"]
+    if case["malformed"] == "blk":      # inner dimension 4 blocked as 2+2 on the left and 4 (or 1+1+1+1) on the right
+        dn1, dn2, n1, n2 = 2, case["dn2"], 4, 4
+    else:                               # inner dimensions differ
+        dn1, dn2, n1, n2 = case["dn"], case["dn"], case["dn"] * 2, case["dn"] * 3
+    DA = (torch.randint(1, 4, (case["sm"] * dm, n1), generator=g) * (torch.rand(case["sm"] * dm, n1, generator=g) < case["da"])).to(dt)
+    DB = (torch.randint(1, 4, (n2, case["sp"] * dp), generator=g) * (torch.rand(n2, case["sp"] * dp, generator=g) < case["db"])).to(dt)
+    a, b = DA.to_sparse_bsr((dm, dn1)), DB.to_sparse_bsc((dn2, dp))
+    fn = O().bsr_bsc_matmul if case["api"] == "bsr_bsc_matmul" else O()._sparse_csr_mm
+    ctx.count(f"sparse.malformed.{case['malformed']}")
+    try:
+        y = fn(a, b)
+    except BaseException:
+        ctx.count("sparse.malformed.raises")
+        return True
+    yd = valid_dense(y)
+    if case["malformed"] == "blk" and yd is not None and torch.equal(yd.double(), DA.double() @ DB.double()):
+        ctx.count("sparse.malformed.correct")
+        return True
+    ctx.fail(dict(case), f"sparse-silent: {case['api']} returned a tensor for operands that do not fit "
+                         f"({'inner block sizes 2 vs ' + str(case.get('dn2')) if case['malformed'] == 'blk' else 'inner dimensions differ'}) "
+                         f"and it is not the dense product")
+    return False
+
+
 def judge_sparse_model(ctx: Ctx, cc, y, rep):
     st, toks = common.parse_reply(rep)
     toks = [t for t in toks if t]
@@ -1160,6 +1190,11 @@ def gen_sparse_cases(ctx: Ctx, count):
             "disjoint": rng.random() < 0.08, "zeroval": rng.random() < 0.1,
             "data": rng.choice(["int", "int", "float"]), "dtype": rng.choice(["float64", "float32"]),
             "seed": rng.randrange(1 << 30)})
+        if rng.random() < 0.05:
+            cases[-1]["malformed"] = rng.choice(["blk", "dim"])
+            cases[-1]["dn2"] = rng.choice([1, 4])
+            cases[-1]["da"] = rng.choice([0.0, 0.3, 1.0])
+            cases[-1]["db"] = rng.choice([0.0, 0.3, 1.0])
     return cases
 
 
@@ -1181,6 +1216,10 @@ def sparse_canary(ctx: Ctx, cases) -> bool:
             raise common.InfraError("sparse canary timed out")
         if p.returncode == 0:
             return True
+        if p.returncode == 4:
+            ctx.fail({"kind": "import", "module": "pypose.sparse.ops"},
+                     "sparse-import: pypose.sparse.ops cannot be loaded: " + (p.stderr.strip().splitlines() or [""])[-1][:200])
+            return False
         try:
             idx = int(open(path + ".progress").read().strip() or "-1")
         except Exception:
@@ -1204,24 +1243,36 @@ def canary_main(path):
     """child side of `sparse_canary`"""
     import json, sys, warnings
     warnings.filterwarnings("ignore")
+    torch.set_num_threads(1)
     try:
         sys.path.insert(0, str(common.REPO))
         cases = json.load(open(path))["cases"]
-        O()
     except Exception as e:  # cannot even start: infrastructure
         print(f"canary setup failed: {e}", file=sys.stderr)
         sys.exit(3)
+    try:
+        O()
+    except BaseException as e:  # the implementation module itself does not load (e.g. TorchScript compile error)
+        print(f"{type(e).__name__}: {str(e)[:300]}".replace("\n", " "), file=sys.stderr)
+        sys.exit(4)
     ctx = Ctx("C10", "quick", 0)
     with open(path + ".progress", "w") as prog:
         for i, case in enumerate(cases):
             prog.seek(0); prog.write(f"{i}      "); prog.flush()
-            check_sparse(ctx, case, None)
+            if case.get("malformed"):
+                check_sparse_malformed(ctx, case)
+            else:
+                check_sparse(ctx, case, None)
     sys.exit(0)
 
 
 def run_sparse(ctx: Ctx, cases):
     lines = []
     for case in cases:
+        if case.get("malformed"):
+            check_sparse_malformed(ctx, case)
+            ctx.note_case(("sparse.malformed", case["api"], case["malformed"], case.get("dn2"), case["da"], case["db"]), True)
+            continue
         check_sparse(ctx, case, lines)
         PA, PB, _, _ = sparse_build(case)
         ctx.note_case(("sparse", case["api"], case["sm"], case["sn"], case["sp"], case["dm"], case["dn"], case["dp"], case["pa"], case["pb"],
@@ -1251,14 +1302,15 @@ def run_dispatch(ctx: Ctx, skip_merge_join=False):
 
 
 def run(ctx: Ctx):
-    sparse_cases = gen_sparse_cases(ctx, ctx.pick(500, 6000))
+    torch.set_num_threads(1)   # all systems are <= 40 x 40: threads only add contention on a shared box
+    sparse_cases = gen_sparse_cases(ctx, ctx.pick(500, 9000))
     alive = sparse_canary(ctx, sparse_cases)
     run_dispatch(ctx, skip_merge_join=not alive)
     if alive:
         run_sparse(ctx, sparse_cases)
-    run_chol_cases(ctx, gen_chol_cases(ctx, ctx.pick(400, 5000)))
-    run_ls(ctx, gen_ls_cases(ctx, ctx.pick(400, 5000)))
-    run_cg(ctx, gen_cg_cases(ctx, ctx.pick(500, 6000)))
+    run_chol_cases(ctx, gen_chol_cases(ctx, ctx.pick(400, 7000)))
+    run_ls(ctx, gen_ls_cases(ctx, ctx.pick(400, 7000)))
+    run_cg(ctx, gen_cg_cases(ctx, ctx.pick(500, 9000)))
     ctx.notes.append("largest observed error/tolerance per oracle: " +
                      ", ".join(f"{k}={v:.3g}" for k, v in sorted(STATS.items())))
 
@@ -1267,22 +1319,23 @@ def run(ctx: Ctx):
 
 def search(ctx: Ctx):
     """failing-input search on the real code after a broken proof / correspondence: the property's own oracles
-    (certificates, residuals, dense product) over a larger and more adversarial sample, no model needed for the
-    verdict except the exact certificate evaluation."""
+    (certificates, residuals, dense product) over fresh, larger samples of the streams whose correspondence broke
+    (all streams when a proof obligation broke)."""
     n0 = len(ctx.failures)
-    for rounds in range(6):
-        sc = gen_sparse_cases(ctx, 300)
-        if sparse_canary(ctx, sc):
-            run_sparse(ctx, sc)
-        if len(ctx.failures) > n0:
-            return
-        run_chol_cases(ctx, gen_chol_cases(ctx, 200))
-        if len(ctx.failures) > n0:
-            return
-        run_cg(ctx, gen_cg_cases(ctx, 300))
-        if len(ctx.failures) > n0:
-            return
-        run_ls(ctx, gen_ls_cases(ctx, 200))
+    broken = {d["stream"].split(".")[0] for d in ctx.disagreements}
+    if not broken or "implementation-crash" in broken:
+        broken = {"sparse", "dispatch", "chol", "cg", "ls"}
+    for rounds in range(3):
+        if broken & {"sparse", "dispatch"}:
+            sc = gen_sparse_cases(ctx, 300)
+            if sparse_canary(ctx, sc):
+                run_sparse(ctx, sc)
+        if "chol" in broken and len(ctx.failures) == n0:
+            run_chol_cases(ctx, gen_chol_cases(ctx, 200))
+        if "cg" in broken and len(ctx.failures) == n0:
+            run_cg(ctx, gen_cg_cases(ctx, 300))
+        if "ls" in broken and len(ctx.failures) == n0:
+            run_ls(ctx, gen_ls_cases(ctx, 200))
         if len(ctx.failures) > n0:
             return
 
@@ -1300,6 +1353,11 @@ def replay(ctx: Ctx, case) -> bool:
     elif kind == "sparse":
         if sparse_canary(ctx, [c]):
             run_sparse(ctx, [c])
+    elif kind == "import":
+        try:
+            O()
+        except BaseException as e:
+            ctx.fail(c, f"sparse-import: pypose.sparse.ops cannot be loaded: {type(e).__name__}")
     elif kind == "dispatch":
         rep = ctx.driver.run([f"c10.dispatch {c['l1']} {c['l2']}"])[0]
         check_dispatch(ctx, c, common.parse_reply(rep)[1][1])
